@@ -198,3 +198,33 @@ def abi_items(pt, rng, n):
             return pt.Seq(*abigen.build_set(pt, spec, st, val, out, r2), pt.Log(out.encode()), pt.Int(1))
         it = Item("abi", "app", v, rand_opts(rng, v), {"type": ts, "in_subroutine": insub})
         yield _compile(pt, it, make)
+
+
+def corpus_items(pt, rng, shard, nshards):
+    """The repository's example programs at every version from their own minimum, under every option setting (sharded)."""
+    from . import corpus
+    k = 0
+    for ent in corpus.entries(pt):
+        name, mode, minv, thunk = ent
+        for v in range(minv, 11):
+            for ss, fp in ((None, None), (False, False), (True, None), (False, True if v >= 8 else None)):
+                k += 1
+                if k % nshards != shard:
+                    continue
+                reset_globals()
+                base = Item("corpus", mode, v, (ss, fp), {"entry": name, "assemble": bool(k % 3 == 0)})
+                try:
+                    texts = corpus.compile_entry(pt, ent, v, ss, fp, assemble=bool(k % 3 == 0))
+                except PT_ERRORS as e:
+                    base.err, base.errtype, base.pt_error = str(e)[:300], type(e).__name__, True
+                    yield base
+                    continue
+                except Exception as e:
+                    base.err, base.errtype = "%s: %s" % (type(e).__name__, str(e)[:300]), type(e).__name__
+                    yield base
+                    continue
+                for label, teal in texts:
+                    it = Item("corpus", mode, v, (ss, fp), {"entry": label, "assemble": bool(k % 3 == 0)})
+                    it.teal = teal
+                    it.anytype = True  # the examples read application state (anytype)
+                    yield it
